@@ -155,7 +155,13 @@ func runTestFile(fileName string) {
 	}
 
 	report := test.Run()
-	if report == nil || report.Status() != test.TEST_SUCCESS {
+	if report == nil {
+		os.Exit(1)
+	}
+	switch report.Status() {
+	case test.TEST_SUCCESS, test.TEST_SKIPPED:
+		// no case failed; the root suite is skipped when the filters select no case
+	default:
 		os.Exit(1)
 	}
 }
